@@ -128,6 +128,10 @@ def havoc_inplace(ip, o, name, det=False):
     if isinstance(o, HDict):
         o.maps = {sp: mk(f'{name}_{sp}', z3.ArraySort(s, VAL)) for sp, s in HDict.SPACES.items()}
         return
+    from .sym import HByteArray as _HBA
+    if isinstance(o, _HBA):
+        o.v = sym_bytes(mk(name + '_bytes', BYTES))
+        return
     if isinstance(o, HObj):
         for k, x in list(o.f.items()):
             if isinstance(x, (ZList, HDict, HObj)):
